@@ -263,6 +263,18 @@ def catalogue(tier="quick", mode="r1"):
                     [("birth", "number", F(1, 12), [0, 1]), ("q1", "proportion", None, [0, F(1, 4), F(3, 4)]), ("q2", "proportion", None, [0, F(1, 2), 1]), ("die", "probability", 1, [F(1, 2), 9])],
                     [("src", "k", "birth"), ("k", "a", "q1"), ("k", "b", "q2"), ("k", "c", ">"), ("a", "d", "die"), ("b", "d", "die"), ("c", "d", "die")],
                     F(1, 4), {"a": [0, 10], "b": [0, 3], "c": [0], "d": [0]}, jinit={"k": [0, 5]}))
+    # 12a'' a plain junction all of whose proportions can be zero: with nobody entering it is idle (no flows, in particular no 0/0);
+    #       with people entering the model is ill-posed (C01's domain restriction) and the case is skipped
+    S.append(struct("jzero", [("a", "normal"), ("j", "junction"), ("b", "normal"), ("c", "normal")],
+                    [("r", "rate", 1, [0, 1]), ("p1", "proportion", None, [F(-1, 2), 0, F(1, 2)]), ("p2", "proportion", None, [0, 1]), ("back", "probability", 1, [0, 2])],
+                    [("a", "j", "r"), ("j", "b", "p1"), ("j", "c", "p2"), ("b", "a", "back"), ("c", "a", "back")],
+                    F(1, 4), {"a": [0, 64], "b": [0, 8], "c": [0]}))
+    # 12a' the residual outflow of a junction feeds another junction that is listed *before* it (the execution order has to come from
+    #      the links, including the parameter-less residual link, not from the order on the compartments sheet)
+    S.append(struct("reschain", [("a", "normal"), ("j2", "junction"), ("k", "resjunction"), ("b", "normal"), ("c", "normal"), ("d", "normal")],
+                    [("r", "rate", 1, [0, 1, 8]), ("q1", "proportion", None, [F(-1, 4), 0, F(1, 4), F(3, 2)]), ("u1", "proportion", None, [F(1, 2), 1]), ("u2", "proportion", None, [0, F(3, 2)]), ("back", "probability", 1, [0, 2])],
+                    [("a", "k", "r"), ("k", "b", "q1"), ("k", "j2", ">"), ("j2", "c", "u1"), ("j2", "d", "u2"), ("b", "a", "back"), ("c", "a", "back")],
+                    F(1, 4), {"a": [0, 64], "b": [0, 3], "c": [0], "d": [0, 7]}, jinit={"k": [0, 16], "j2": [0, 8]}))
     # 12b D/dt non-integer (2.4 -> 3 rows) and D/dt >> 1 (24 rows)
     S.append(struct("tfrac", [("a", "normal"), ("v", "timed", "dur"), ("d", "sink")],
                     [("vac", "probability", 1, [0, 3]), ("dur", "duration", 1, [F(3, 5)], True), ("mort", "rate", 1, [0, 2])],
@@ -281,10 +293,18 @@ def catalogue(tier="quick", mode="r1"):
                      ("both", "rate", 1, [0], False, {"fn": ("add", ("par", "foi"), ("par", "foi2")), "lim": (F(1, 4), 2)}),
                      ("rec", "rate", F(1, 12), [F(1, 24), F(1, 2)]),
                      ("wane", "duration", 1, [F(1, 8), 4]),
-                     ("mort", "rate", 1, [0], False, {"fn": ("div", ("comp", "inf"), ("max", ("char", "alive"), ("num", 1)))})],
-                    [("sus", "inf", "foi"), ("sus", "rcv", "foi2"), ("inf", "rcv", "rec"), ("inf", "sus", "both"), ("rcv", "sus", "wane"), ("sus", "dead", "mort"), ("inf", "dead", "mort"), ("rcv", "dead", "mort")],
+                     ("mort", "rate", 1, [0], False, {"fn": ("div", ("comp", "inf"), ("max", ("char", "alive"), ("num", 1)))}),
+                     # a function that goes negative, on a parameter with an upper limit only: no flow, never a reverse flow
+                     ("rel", "probability", 1, [0], False, {"fn": ("sub", ("par", "beta"), ("num", 1)), "lim": (None, 3)})],
+                    [("rcv", "inf", "rel"), ("sus", "inf", "foi"), ("sus", "rcv", "foi2"), ("inf", "rcv", "rec"), ("inf", "sus", "both"), ("rcv", "sus", "wane"), ("sus", "dead", "mort"), ("inf", "dead", "mort"), ("rcv", "dead", "mort")],
                     F(1, 4), {"sus": [0, 64], "inf": [0, 16, 32], "rcv": [0, 32], "dead": [0]},
                     characs=[("alive", ["sus", "inf", "rcv"], None), ("prev", ["inf"], "alive")], glob=False))
+    # 12d two duration groups in one population with an ordinary link between them: the move restarts the clock (it is not a
+    #     time-preserving move), the remaining time in the old group is not carried over
+    S.append(struct("tcross", [("a", "normal"), ("v", "timed", "d1"), ("w", "timed", "d2"), ("d", "sink")],
+                    [("vac", "probability", 1, [0, 2]), ("d1", "duration", 1, [F(1, 2)], True), ("d2", "duration", 1, [1], True), ("sw", "probability", 1, [0, 1, 8]), ("mort", "rate", 1, [0, 2])],
+                    [("a", "v", "vac"), ("v", "a", "d1"), ("w", "a", "d2"), ("v", "w", "sw"), ("w", "d", "mort")],
+                    F(1, 4), {"a": [0, 64], "v": [[0, 0], [4, 8]], "w": [[0, 0, 0, 0], [1, 2, 3, 4]], "d": [0]}))
     # 13 residual junction inside a duration group (row-wise residual), proportions summing below and above 1
     S.append(struct("tresj", [("a", "normal"), ("v", "timed", "dur"), ("k", "resjunction", "dur"), ("w", "timed", "dur"), ("x", "timed", "dur"), ("d", "sink")],
                     [("vac", "probability", 1, [0, 2]), ("dur", "duration", 1, [F(3, 4)], True), ("go", "probability", 1, [0, 1, 8]),
@@ -351,7 +371,34 @@ def catalogue_r2(tier="quick"):
                     [("a", "v", "vac"), ("v", "a", "dur"), ("v", "d", "mort")],
                     F(1, 4), {"p0/a": [64], "p0/v": [[0, 0], [8, 4]], "p0/d": [0], "p1/a": [0, 16], "p1/v": [[0, 0]], "p1/d": [0]},
                     pops=("p0", "p1"), transfers=[("tr", "p0", "p1", "rate", [0, 2]), ("tr", "p1", "p0", "rate", [0, 2])]))
+    S.append(struct("r2_reschain", [("a", "normal"), ("j2", "junction"), ("k", "resjunction"), ("b", "normal"), ("c", "normal"), ("d", "normal")],
+                    [("r", "rate", 1, [0, 2]), ("q1", "proportion", None, [F(1, 4), 2]), ("u1", "proportion", None, [F(1, 2)]), ("u2", "proportion", None, [0, F(3, 2)]), ("back", "probability", 1, [0, 2])],
+                    [("a", "k", "r"), ("k", "b", "q1"), ("k", "j2", ">"), ("j2", "c", "u1"), ("j2", "d", "u2"), ("b", "a", "back"), ("c", "a", "back")],
+                    F(1, 4), {"a": [64], "b": [0], "c": [0], "d": [0]}, jinit={"k": [0, 16], "j2": [0, 8]}))
+    # a junction that starts with people and whose stated proportion is a function of a compartment the initial flush changes: the
+    # proportion recorded at the first time point is the one the first step's split used (parameters are re-evaluated after the flush)
+    S.append(struct("r2_fnresj", [("a", "normal"), ("k", "resjunction"), ("b", "normal"), ("c", "normal")],
+                    [("r", "rate", 1, [0, 2]), ("q1", "proportion", None, [0], False, {"fn": ("div", ("comp", "b"), ("num", 64))}), ("back", "probability", 1, [0, 2])],
+                    [("a", "k", "r"), ("k", "b", "q1"), ("k", "c", ">"), ("c", "a", "back")],
+                    F(1, 4), {"a": [64], "b": [0, 16], "c": [0]}, jinit={"k": [0, 16]}, glob=False))
+    S.append(struct("r2_tcross", [("a", "normal"), ("v", "timed", "d1"), ("w", "timed", "d2"), ("d", "sink")],
+                    [("vac", "probability", 1, [0, 2]), ("d1", "duration", 1, [F(1, 2)], True), ("d2", "duration", 1, [1], True), ("sw", "probability", 1, [0, 2]), ("mort", "rate", 1, [0])],
+                    [("a", "v", "vac"), ("v", "a", "d1"), ("w", "a", "d2"), ("v", "w", "sw"), ("w", "d", "mort")],
+                    F(1, 4), {"a": [64], "v": [[0, 0], [4, 8]], "w": [[0, 0, 0, 0]], "d": [0]}))
     return [expand(s, "r2") for s in S]
+
+
+def catalogue_traceonly(tier="quick"):
+    """Worlds that are only run and trace-checked, not explored: durations of hundreds of steps with step sizes that are not
+    binary fractions (weekly, daily, 0.01), where D/dt is an integer only up to rounding error."""
+    S = []
+    for wid, dt, D in [("tweek", F(1, 52), 5), ("tday", F(1, 365), 1)] + ([("tcent", F(1, 100), 10), ("tweek2", F(1, 52), 2)] if tier == "thorough" else []):
+        n = nrows(D, dt)
+        S.append(struct(wid, [("a", "normal"), ("v", "timed", "dur"), ("d", "sink")],
+                        [("vac", "probability", 1, [0, 3]), ("dur", "duration", 1, [D], True), ("mort", "rate", 1, [0, 2])],
+                        [("a", "v", "vac"), ("v", "a", "dur"), ("v", "d", "mort")],
+                        dt, {"a": [0, 100], "v": [[1] * n, [0] * (n - 1) + [60]], "d": [0]}))
+    return [expand(s, "r1") for s in S]
 
 
 # ------------------------------------------------------------------------------------------------ materialiser
